@@ -129,3 +129,493 @@ func C03(g *ref.Grammar, mk func() Parser, n, rule, nsw int) {
 	}
 	rt.Reach("accept")
 }
+
+// ---- C02: option sets agree with the default parser ----
+
+// C02 runs the default parser and the given variants (generated with -inline / -switch) on the
+// same input and compares verdict, consumed prefix and token list.
+func C02(g *ref.Grammar, def func() Parser, names []string, mks []func() Parser, n, nsw int) {
+	in := NewInput("in", n, nsw)
+	p0 := start(def, in, true, -1)
+	ok0 := p0.Parse(-1)
+	var t0 []ref.Tok
+	if ok0 {
+		t0 = p0.Tokens()
+	}
+	rt.ObserveBool("ok", ok0)
+	for i, mk := range mks {
+		p := start(mk, in, true, -1)
+		ok := p.Parse(-1)
+		rt.Assert("verdict/"+names[i], ok == ok0)
+		if ok && ok0 {
+			t := p.Tokens()
+			rt.Assert("tokens/"+names[i], sameToks(t, t0))
+		}
+	}
+	if ok0 {
+		rt.Reach("accept")
+	} else {
+		rt.Reach("reject")
+	}
+}
+
+// ---- C04: Execute runs the derivation's actions in order with the right text ----
+
+func sameEvs(a, b []ref.Ev, withSpan bool) bool {
+	if len(a) != len(b) {
+		return false
+	}
+	ok := true
+	for i := range a {
+		if a[i].K != b[i].K {
+			return false
+		}
+		if withSpan && (a[i].B != b[i].B || a[i].E != b[i].E) {
+			return false
+		}
+		ok = rt.And(ok, a[i].Text == b[i].Text)
+	}
+	return ok
+}
+
+func C04(g *ref.Grammar, mk func() Parser, n, nsw int) {
+	in := NewInput("in", n, nsw)
+	p := start(mk, in, true, -1)
+	ok := p.Parse(-1)
+	r := ref.Run(g, 0, in.R, in.Sw)
+	rt.Assume(!r.Aborted)
+	rt.Assert("verdict", ok == r.OK)
+	if !ok {
+		rt.Reach("reject")
+		return
+	}
+	got := p.Execute()
+	want := ref.ActionTrace(r.Toks, in.R)
+	rt.ObserveInt("nactions", len(got))
+	for _, ev := range got {
+		rt.ObserveInt("k", ev.K)
+		rt.ObserveStr("text", ev.Text)
+	}
+	rt.Assert("action-count", len(got) == len(want))
+	rt.Assert("action-trace", sameEvs(got, want, true))
+	if len(want) > 0 {
+		rt.Reach("actions-ran")
+	}
+	// Execute is repeatable: a second run appends the same trace again
+	got2 := p.Execute()
+	rt.Assert("execute-twice", len(got2) == 2*len(want))
+	rt.Reach("accept")
+}
+
+// ---- C05: AST and printers ----
+
+func sameTree(a, b []*ref.Node) bool {
+	if len(a) != len(b) {
+		return false
+	}
+	for i := range a {
+		if a[i].Rule != b[i].Rule || a[i].B != b[i].B || a[i].E != b[i].E {
+			return false
+		}
+		if !sameTree(a[i].Kids, b[i].Kids) {
+			return false
+		}
+	}
+	return true
+}
+
+// quote is strconv.Quote; kept behind a variable so that vhlib has no strconv import cycle issues
+func expectPrint(nodes []*ref.Node, depth int, in []rune, quote func(string) string) string {
+	s := ""
+	for _, nd := range nodes {
+		for i := 0; i < depth; i++ {
+			s += " "
+		}
+		s += nd.Rule + " " + quote(string(in[nd.B:nd.E])) + "\n"
+		s += expectPrint(nd.Kids, depth+1, in, quote)
+	}
+	return s
+}
+
+func C05(g *ref.Grammar, mk func() Parser, quote func(string) string, n, nsw int) {
+	in := NewInput("in", n, nsw)
+	p := start(mk, in, true, -1)
+	ok := p.Parse(-1)
+	r := ref.Run(g, 0, in.R, in.Sw)
+	rt.Assume(!r.Aborted)
+	rt.Assert("verdict", ok == r.OK)
+	if !ok {
+		rt.Reach("reject")
+		return
+	}
+	want := ref.Tree(r.Toks)
+	got := p.Tree()
+	rt.Assert("ast", sameTree(got, want))
+	// the tree can be asked for again and is the same (AST() must not disturb the tokens)
+	rt.Assert("ast-twice", sameTree(p.Tree(), want))
+	s := p.Sprint()
+	rt.ObserveStr("print", s)
+	rt.Assert("print", s == expectPrint(want, 0, in.R, quote))
+	rt.Assert("tokens-after-print", sameToks(p.Tokens(), r.Toks))
+	if len(want) > 0 {
+		rt.Reach("nonempty-tree")
+	}
+	rt.Reach("accept")
+}
+
+// ---- C06: memoisation on/off ----
+
+func C06(g *ref.Grammar, mk func() Parser, n, nsw int) {
+	in := NewInput("in", n, nsw)
+	pm := start(mk, in, true, -1)
+	pn := start(mk, in, false, -1)
+	okm := pm.Parse(-1)
+	okn := pn.Parse(-1)
+	r := ref.Run(g, 0, in.R, in.Sw)
+	rt.Assume(!r.Aborted)
+	rt.ObserveBool("ok", okm)
+	rt.Assert("verdict/memo-vs-nomemo", okm == okn)
+	rt.Assert("verdict/ref", okm == r.OK)
+	if okm && okn {
+		tm, tn := pm.Tokens(), pn.Tokens()
+		rt.Assert("tokens/memo-vs-nomemo", sameToks(tm, tn))
+		rt.Assert("tokens/ref", sameToks(tm, r.Toks))
+		rt.Assert("print/memo-vs-nomemo", pm.Sprint() == pn.Sprint())
+	}
+	if !okm && !okn {
+		mm, mn := pm.MaxTok(), pn.MaxTok()
+		rt.ObserveStr("maxrule", mm.Rule)
+		rt.Assert("error-token/memo-vs-nomemo", mm.Rule == mn.Rule && mm.B == mn.B && mm.E == mn.E)
+		rt.Assert("error-token/ref", mm.Rule == errRule(r.Max) && mm.B == r.Max.B && mm.E == r.Max.E)
+	}
+	if r.Revisit {
+		rt.Reach("memo-hit")
+	}
+	rt.Reach("done")
+}
+
+func errRule(t ref.Tok) string {
+	if t.Rule == "" {
+		return "Unknown"
+	}
+	return t.Rule
+}
+
+// ---- C07: -noast parsers ----
+
+// C07 compares the verdict of each -noast variant with the default parser, and the inline
+// action trace with the reference's evaluation-order trace (exact for -noast and -noast
+// -inline; under -switch the set of alternatives attempted legitimately differs, so there each
+// event's text only has to be a capture completed earlier in the same run or empty).
+func C07(g *ref.Grammar, def func() Parser, names []string, mks []func() Parser, exact []bool, n, nsw int) {
+	in := NewInput("in", n, nsw)
+	p0 := start(def, in, true, -1)
+	ok0 := p0.Parse(-1)
+	r := ref.Run(g, 0, in.R, in.Sw)
+	rt.Assume(!r.Aborted)
+	rt.ObserveBool("ok", ok0)
+	rt.Assert("verdict/default-vs-ref", ok0 == r.OK)
+	for i, mk := range mks {
+		p := start(mk, in, true, -1)
+		ok := p.Parse(-1)
+		rt.Assert("verdict/"+names[i], ok == ok0)
+		tr := p.Trace()
+		if exact[i] {
+			rt.Assert("trace-count/"+names[i], len(tr) == len(r.Reached))
+			rt.Assert("trace/"+names[i], sameEvs(tr, r.Reached, false))
+		} else {
+			for _, ev := range tr {
+				okText := ev.Text == ""
+				for b := 0; b <= n; b++ {
+					for e := b; e <= n; e++ {
+						okText = rt.Or(okText, ev.Text == string(in.R[b:e]))
+					}
+				}
+				rt.Assert("trace-text-is-input-span/"+names[i], okText)
+			}
+		}
+	}
+	if len(r.Reached) > 0 {
+		rt.Reach("actions-reached")
+	}
+	rt.Reach("done")
+}
+
+// ---- C11: the error locates the failure ----
+
+// lineCol is the documented position of offset p: line = 1 + newlines before p; column =
+// 1 + number of runes between the last newline before p and p.
+func lineCol(in []rune, p int) (line, col int) {
+	line, col = 1, 1
+	for i := 0; i < p; i++ {
+		if in[i] == '\n' {
+			line++
+			col = 1
+		} else {
+			col++
+		}
+	}
+	return
+}
+
+// numbers extracts the decimal numbers of s in order.
+func numbers(s string) []int {
+	var out []int
+	i := 0
+	for i < len(s) {
+		if s[i] >= '0' && s[i] <= '9' {
+			v := 0
+			for i < len(s) && s[i] >= '0' && s[i] <= '9' {
+				v = v*10 + int(s[i]-'0')
+				i++
+			}
+			out = append(out, v)
+		} else {
+			i++
+		}
+	}
+	return out
+}
+
+func contains(s, sub string) bool {
+	for i := 0; i+len(sub) <= len(s); i++ {
+		if s[i:i+len(sub)] == sub {
+			return true
+		}
+	}
+	return false
+}
+
+func checkError(p Parser, r *ref.Res, in *Input, n int, quote func(string) string, tag string) {
+	mt := p.MaxTok()
+	rt.ObserveStr("maxrule", mt.Rule)
+	rt.ObserveInt("maxb", mt.B)
+	rt.ObserveInt("maxe", mt.E)
+	rt.Assert("error-token-in-input"+tag, 0 <= mt.B && mt.B <= mt.E && mt.E <= n)
+	rt.Assert("error-token"+tag, mt.Rule == errRule(r.Max) && mt.B == r.Max.B && mt.E == r.Max.E)
+	msg := p.ErrMsg()
+	rt.ObserveStr("msg", msg)
+	before, quoted, _ := rt.SplitQuote(msg)
+	rt.Assert("message-names-rule"+tag, contains(before, mt.Rule))
+	nums := numbers(before)
+	l1, c1 := lineCol(in.R, mt.B)
+	l2, c2 := lineCol(in.R, mt.E)
+	rt.Assert("message-has-positions"+tag, len(nums) >= 4)
+	if len(nums) >= 4 {
+		k := len(nums) - 4
+		rt.Assert("message-begin-position"+tag, nums[k] == l1 && nums[k+1] == c1)
+		rt.Assert("message-end-position"+tag, nums[k+2] == l2 && nums[k+3] == c2)
+	}
+	rt.Assert("message-quotes-text"+tag, quoted == quote(string(in.R[mt.B:mt.E])))
+}
+
+func C11(g *ref.Grammar, mk func() Parser, quote func(string) string, n, nsw int) {
+	in := NewInput("in", n, nsw)
+	p := start(mk, in, true, -1)
+	ok := p.Parse(-1)
+	r := ref.Run(g, 0, in.R, in.Sw)
+	rt.Assume(!r.Aborted)
+	rt.ObserveBool("ok", ok)
+	rt.Assert("nil-iff-matched", ok == r.OK)
+	if ok {
+		rt.Reach("accept")
+		return
+	}
+	checkError(p, r, in, n, quote, "")
+	if r.Max.B != r.Max.E {
+		rt.Reach("nonempty-error-token")
+	}
+	rt.Reach("reject")
+}
+
+// ---- C12: reuse ----
+
+type snapshot struct {
+	ok    bool
+	toks  []ref.Tok
+	max   ref.Tok
+	msg   string
+	trace []ref.Ev
+	print string
+}
+
+func snap(p Parser, hasActions bool) snapshot {
+	var s snapshot
+	s.ok = p.Parse(-1)
+	if s.ok {
+		s.toks = p.Tokens()
+		if hasActions {
+			s.trace = p.Execute()
+		}
+		s.print = p.Sprint()
+	} else {
+		s.max = p.MaxTok()
+		s.msg = p.ErrMsg()
+	}
+	return s
+}
+
+func sameSnap(id string, a, b snapshot) {
+	rt.Assert(id+"/verdict", a.ok == b.ok)
+	if a.ok && b.ok {
+		rt.Assert(id+"/tokens", sameToks(a.toks, b.toks))
+		rt.Assert(id+"/trace", len(a.trace) == len(b.trace) && sameEvs(a.trace, b.trace, true))
+		rt.Assert(id+"/tree-print", a.print == b.print)
+	}
+	if !a.ok && !b.ok {
+		rt.Assert(id+"/error-token", a.max.Rule == b.max.Rule && a.max.B == b.max.B && a.max.E == b.max.E)
+		rt.Assert(id+"/error-message", a.msg == b.msg)
+	}
+}
+
+// C12 feeds k inputs to one long-lived parser (Buffer, Reset, Parse, Execute, print) and
+// compares each step with a fresh parser given that input alone.
+func C12(g *ref.Grammar, mk func() Parser, hasActions bool, size int, lens []int, same bool, nsw int) {
+	var reused Parser
+	ins := make([]*Input, len(lens))
+	for i, n := range lens {
+		name := "in" + string(rune('a'+i))
+		if same && i > 0 {
+			ins[i] = ins[0] // the same input again
+		} else {
+			ins[i] = NewInput(name, n, nsw)
+		}
+	}
+	for i, in := range ins {
+		if i == 0 {
+			reused = start(mk, in, true, size)
+		} else {
+			for j, v := range in.Sw {
+				reused.SetSw(j, v)
+			}
+			reused.Reset(in.S)
+		}
+		got := snap(reused, hasActions)
+		fresh := start(mk, in, true, -1)
+		want := snap(fresh, hasActions)
+		rt.ObserveBool("ok", got.ok)
+		sameSnap("step"+string(rune('0'+i)), got, want)
+	}
+	rt.Reach("done")
+}
+
+// C12U: the result does not depend on the unsigned type instantiating the parser nor on Size.
+func C12U(g *ref.Grammar, mks []func() Parser, names []string, hasActions bool, sizes []int, n, nsw int) {
+	in := NewInput("in", n, nsw)
+	base := snap(start(mks[0], in, true, -1), hasActions)
+	for i, mk := range mks {
+		for _, sz := range sizes {
+			if i == 0 && sz < 0 {
+				continue
+			}
+			got := snap(start(mk, in, true, sz), hasActions)
+			sameSnap("type-"+names[i]+"/size"+itoa(sz), got, base)
+		}
+	}
+	rt.Reach("done")
+}
+
+func itoa(k int) string {
+	if k < 0 {
+		return "unset"
+	}
+	if k == 0 {
+		return "0"
+	}
+	s := ""
+	for k > 0 {
+		s = string(rune('0'+k%10)) + s
+		k /= 10
+	}
+	return s
+}
+
+// ---- C13: no crash, offsets index the rune sequence ----
+
+func C13(g *ref.Grammar, names []string, mks []func() Parser, ast []bool, n, nsw int) {
+	in := NewInput("in", n, nsw)
+	for i, mk := range mks {
+		p := start(mk, in, true, -1)
+		rt.Assert("buffer-has-sentinel/"+names[i], p.BufferLen() == n+1)
+		ok := p.Parse(-1)
+		if i == 0 {
+			rt.ObserveBool("ok", ok)
+		}
+		if ok {
+			if ast[i] {
+				for _, t := range p.Tokens() {
+					rt.Assert("token-span/"+names[i], 0 <= t.B && t.B <= t.E && t.E <= n)
+				}
+				_ = p.Sprint()
+			}
+		} else {
+			mt := p.MaxTok()
+			rt.Assert("error-token-span/"+names[i], 0 <= mt.B && mt.B <= mt.E && mt.E <= n)
+			_ = p.ErrMsg()
+		}
+	}
+	rt.Reach("done")
+}
+
+// ---- C14: instances do not interfere ----
+
+// C14 interleaves the API calls of two instances in the order given by `order` (a bit string:
+// bit i = 0 means instance A makes its next call, 1 means B) and compares each instance's
+// observables with its run-alone observables; the footprints of the two actors must be
+// disjoint except for read/read sharing.
+func C14(g *ref.Grammar, mkA, mkB func() Parser, hasActions bool, n1, n2, order, nsw int) {
+	inA := NewInput("ina", n1, nsw)
+	inB := NewInput("inb", n2, nsw)
+	// run alone
+	wantA := snap(start(mkA, inA, true, -1), hasActions)
+	wantB := snap(start(mkB, inB, true, -1), hasActions)
+	// interleaved: each instance performs init, parse, observe
+	var pa, pb Parser
+	var gotA, gotB snapshot
+	stepA, stepB := 0, 0
+	for i := 0; i < 6; i++ {
+		if (order>>uint(i))&1 == 0 && stepA < 3 || stepB >= 3 {
+			rt.Actor(1)
+			switch stepA {
+			case 0:
+				pa = start(mkA, inA, true, -1)
+			case 1:
+				gotA.ok = pa.Parse(-1)
+			case 2:
+				observeInto(pa, &gotA, hasActions)
+			}
+			stepA++
+		} else {
+			rt.Actor(2)
+			switch stepB {
+			case 0:
+				pb = start(mkB, inB, true, -1)
+			case 1:
+				gotB.ok = pb.Parse(-1)
+			case 2:
+				observeInto(pb, &gotB, hasActions)
+			}
+			stepB++
+		}
+		rt.Actor(0)
+	}
+	rt.ObserveBool("okA", gotA.ok)
+	rt.ObserveBool("okB", gotB.ok)
+	sameSnap("instanceA", gotA, wantA)
+	sameSnap("instanceB", gotB, wantB)
+	rt.Assert("footprints-disjoint", rt.FootprintsDisjoint(1, 2))
+	rt.Reach("done")
+}
+
+func observeInto(p Parser, s *snapshot, hasActions bool) {
+	if s.ok {
+		s.toks = p.Tokens()
+		if hasActions {
+			s.trace = p.Execute()
+		}
+		s.print = p.Sprint()
+	} else {
+		s.max = p.MaxTok()
+		s.msg = p.ErrMsg()
+	}
+}
